@@ -5,6 +5,7 @@ package stress
 // They are sampling (search support), never a proof.
 
 import (
+	"fmt"
 	"sync"
 	"sync/atomic"
 	"testing"
@@ -70,6 +71,7 @@ func TestConserveReceiverReport(t *testing.T) {
 	if last == nil {
 		t.Fatal("no report")
 	}
+	fmt.Printf("stress conserve-receiver-report packets=%d lost=%d\n", n, lost)
 	if last.LastSequenceNumber&0xFFFF != seq&0xFFFF || int(last.TotalLost) != lost {
 		t.Errorf("CONSERVATION report-receiver: last report says highest=%d lost=%d, delivered highest=%d never-delivered=%d",
 			last.LastSequenceNumber, last.TotalLost, seq, lost)
@@ -142,6 +144,7 @@ func TestConserveCounters(t *testing.T) {
 		time.Sleep(5 * time.Millisecond)
 	}
 	_ = chain.Close()
+	fmt.Printf("stress conserve-counters writes=%d\n", writes)
 	if int(sent) != writes {
 		t.Errorf("CONSERVATION stats: PacketsSent=%d after %d writes", sent, writes)
 	}
@@ -189,6 +192,7 @@ func TestConservePacingEnvelope(t *testing.T) {
 	_ = ic.Close()
 	mu.Lock()
 	defer mu.Unlock()
+	fmt.Printf("stress conserve-pacing-envelope bits=%d\n", bits)
 	if worst > 0 {
 		t.Errorf("CONSERVATION pacing: released %d bits more than 2*burst + 1.02*rate*elapsed allows", worst)
 	}
